@@ -352,6 +352,12 @@ fn ops_json(steps: &[Step]) -> Json {
 
 const ATT: NonZeroUsize = NonZeroUsize::MAX;
 
+/// Set while several threads run histories at once: the per-history
+/// "counters are back to their starting values" check only makes sense when
+/// nothing else allocates; the multi-threaded phase checks the counters once
+/// every thread has been joined instead.
+static CONCURRENT_PHASE: std::sync::atomic::AtomicBool = std::sync::atomic::AtomicBool::new(false);
+
 /// Executes a history.  Slot numbers are taken modulo the number of live
 /// iovecs, so that any sub-sequence of a history is itself a valid history
 /// (used by the shrinker).
@@ -888,10 +894,194 @@ pub fn execute(steps: &[Step], pool_data: &[u8], drop_seed: u64, rs: &mut RunSta
         }
     }
     let (c, b) = (ByteArena::num_live_chunks(), ByteArena::num_live_bytes());
-    if c != base_chunks || b != base_bytes {
+    if !CONCURRENT_PHASE.load(std::sync::atomic::Ordering::Relaxed) && (c != base_chunks || b != base_bytes) {
         return Err(fail(&["C10"], "leak-after-drop", format!("live arena chunks/bytes {}/{} after dropping everything, {}/{} before", c, b, base_chunks, base_bytes)));
     }
     Ok(())
+}
+
+/// Several threads, each running its own histories on its own objects, at the
+/// same time.  Every history is checked against its shadow as usual; the
+/// process-wide arena accounting must be back to its starting values once all
+/// threads have been joined (C10), whatever the interleaving of chunk
+/// allocations and releases was.
+fn concurrent_phase(ctx: &mut Ctx, index_base: u64, rounds: u64, threads: u64, per_thread: u64) {
+    use std::sync::atomic::Ordering;
+    let seed = ctx.args.seed;
+    let shard = ctx.args.shard;
+    for round in 0..rounds {
+        let idx = index_base + round;
+        let describe = move || {
+            Json::obj()
+                .with("kind", Json::s("iovec-concurrent"))
+                .with("index", Json::U(idx))
+                .with("threads", Json::U(threads))
+                .with("histories_per_thread", Json::U(per_thread))
+        };
+        ctx.begin_case(idx, describe);
+        let base = (ByteArena::num_live_chunks(), ByteArena::num_live_bytes());
+        CONCURRENT_PHASE.store(true, Ordering::SeqCst);
+        let handles: Vec<std::thread::JoinHandle<(u64, Option<Fail>)>> = (0..threads)
+            .map(|t| {
+                std::thread::spawn(move || {
+                    let pool_data = gen::pattern(seed.wrapping_mul(0x1000) + t, 64 * 1024);
+                    let mut ops = 0u64;
+                    for h in 0..per_thread {
+                        let mut rng = Rng::for_case(seed, "iovec-mt", ((shard * 1_000 + round) * 64 + t) * 100_000 + h);
+                        let mixk = *rng.pick(&[Mix::Pipe, Mix::Placeholders, Mix::CloneTake, Mix::Arena, Mix::Arena]);
+                        let n = rng.range(1, 60);
+                        let steps = gen_history(&mut rng, n, mixk, true);
+                        let drop_seed = rng.next_u64();
+                        let mut rs = RunStats::default();
+                        let res = catch(|| execute(&steps, &pool_data, drop_seed, &mut rs));
+                        ops += rs.ops;
+                        match res {
+                            Err(p) => return (ops, Some(fail(&["C03", "C05", "C20"], &format!("panic:{}", panic_sig(&p)), format!("history panicked while other threads ran theirs: {}", p)))),
+                            Ok(Err(f)) => return (ops, Some(f)),
+                            Ok(Ok(())) => {}
+                        }
+                    }
+                    (ops, None)
+                })
+            })
+            .collect();
+        let mut first_fail: Option<Fail> = None;
+        for h in handles {
+            match h.join() {
+                Ok((ops, f)) => {
+                    ctx.ops += ops;
+                    if first_fail.is_none() {
+                        first_fail = f;
+                    }
+                }
+                Err(_) => first_fail = Some(fail(&["C03"], "thread-died", "a history thread died outside catch_unwind".into())),
+            }
+        }
+        CONCURRENT_PHASE.store(false, Ordering::SeqCst);
+        let now = (ByteArena::num_live_chunks(), ByteArena::num_live_bytes());
+        if let Some(f) = first_fail {
+            ctx.violate(&f.props, &f.sig, format!("(concurrent phase) {}", f.what), describe());
+        } else if now != base {
+            ctx.violate(
+                &["C10"],
+                "concurrent-accounting",
+                format!("after {} threads ran {} histories each on private objects and dropped everything, live arena chunks/bytes are {}/{} ({}/{} before)", threads, per_thread, now.0, now.1, base.0, base.1),
+                describe(),
+            );
+        } else {
+            ctx.feature_n("iovec.concurrent_rounds_with_accounting_back_to_baseline", 1);
+            ctx.feature_n("iovec.histories_run_concurrently_on_private_objects", threads * per_thread);
+        }
+        ctx.end_case(idx);
+        if ctx.too_many_violations() {
+            return;
+        }
+    }
+}
+
+/// Cross-thread hand-off (the types are Send + Sync): thread A builds an
+/// iovec, clones it and gives the clone to thread B; B keeps reading and
+/// consuming the clone and checks every byte against the snapshot taken at
+/// clone time, while A clears / refills / flushes / drops the original.
+/// Natively this is a content + liveness check; under Miri any write by A
+/// into memory B can read is a data race, and any early release a
+/// use-after-free (C05 / C20 across threads).
+fn handoff_case(rng: &mut Rng, pool: &[u8], small: bool) -> Result<(u64, u64), Fail> {
+    let base = (ByteArena::num_live_chunks(), ByteArena::num_live_bytes());
+    let mut checks = 0u64;
+    let mut a_ops = 0u64;
+    {
+        let mut cursor = 0usize;
+        let mut take = |len: usize| -> &[u8] {
+            if cursor + len > pool.len() {
+                cursor = 0;
+            }
+            let s = &pool[cursor..cursor + len];
+            cursor += len;
+            s
+        };
+        let mut iov: OwningIovec<'_> = OwningIovec::new();
+        let mut expected: Vec<u8> = Vec::new();
+        for _ in 0..rng.range(1, if small { 8 } else { 30 }) {
+            let len = gen::iovec_length(rng, small).min(if small { 200 } else { 6000 });
+            let d = take(len);
+            match rng.below(5) {
+                0 => iov.push(d),
+                1 => iov.push_borrowed(d),
+                2 => iov.push_copy(d),
+                3 => {
+                    let a = iov.arena().read_n(d, len, ATT).map_err(|e| fail(&["C17"], "read_n-err", e.to_string()))?;
+                    let (_ios, slice, anchor) = unsafe { a.components() };
+                    iov.push_borrowed(slice);
+                    iov.push_anchor(anchor);
+                }
+                _ => {
+                    let b = iov.register_patch(&vec![0xEE; len.min(8)]);
+                    let v = take(len.min(8));
+                    iov.backfill_or_panic(b, v);
+                    expected.extend_from_slice(v);
+                    continue;
+                }
+            }
+            expected.extend_from_slice(d);
+        }
+        let clone = iov.clone();
+        let rounds = rng.range(1, 6);
+        let b_seed = rng.next_u64();
+        let expected_ref: &[u8] = &expected;
+        let verdict: Result<u64, Fail> = std::thread::scope(|sc| {
+            let b = sc.spawn(move || -> Result<u64, Fail> {
+                let mut rng = Rng::new(b_seed);
+                let mut c = clone;
+                let mut consumed = 0usize;
+                let mut n = 0u64;
+                for _ in 0..rounds {
+                    let flat = c.flatten().map_err(|_| fail(&["C04", "C20"], "handoff-pending", "a clone of a fully backfilled iovec reports a pending placeholder".into()))?;
+                    if flat[..] != expected_ref[consumed..] {
+                        return Err(fail(&["C20", "C05"], "handoff-content", format!("a clone handed to another thread no longer holds the bytes it had when it was cloned (offset {})", consumed + first_diff(&flat, &expected_ref[consumed..]))));
+                    }
+                    n += 1;
+                    let k = rng.usize_below(flat.len() / 2 + 1);
+                    consumed += c.consumer().advance_slices(k);
+                    std::thread::yield_now();
+                }
+                drop(c);
+                Ok(n)
+            });
+            // Thread A, meanwhile.
+            for _ in 0..rounds * 2 {
+                match rng.below(5) {
+                    0 => iov.clear(),
+                    1 => {
+                        let d = take(rng.range(1, 300));
+                        iov.push_copy(d);
+                    }
+                    2 => {
+                        let n = iov.total_size() / 2;
+                        iov.consumer().advance_slices(n);
+                    }
+                    3 => iov.arena().flush_cache(),
+                    _ => {
+                        let b = iov.register_patch(&[0xEE; 4]);
+                        iov.backfill_or_panic(b, &[1, 2, 3, 4]);
+                    }
+                }
+                a_ops += 1;
+                std::thread::yield_now();
+            }
+            drop(iov);
+            match b.join() {
+                Ok(r) => r,
+                Err(_) => Err(fail(&["C20", "C05"], "handoff-panic", "the thread reading the clone panicked".into())),
+            }
+        });
+        checks += verdict?;
+    }
+    let now = (ByteArena::num_live_chunks(), ByteArena::num_live_bytes());
+    if !CONCURRENT_PHASE.load(std::sync::atomic::Ordering::Relaxed) && now != base {
+        return Err(fail(&["C10"], "leak-after-drop", format!("live arena chunks/bytes {}/{} after a cross-thread hand-off, {}/{} before", now.0, now.1, base.0, base.1)));
+    }
+    Ok((checks, a_ops))
 }
 
 // ---------------------------------------------------------------------------
@@ -1172,5 +1362,35 @@ pub fn run(ctx: &mut Ctx) {
         if ctx.too_many_violations() {
             return;
         }
+    }
+    // Cross-thread hand-offs (all flavours, small under Miri).
+    let handoffs = ctx.args.get_u64("handoffs", if miri { 6 } else if thorough { 40_000 } else { 4_000 });
+    for r in 0..handoffs {
+        let idx = (1u64 << 41) + r;
+        if !ctx.mine(idx) {
+            continue;
+        }
+        let mut rng = Rng::for_case(ctx.args.seed, "iovec-handoff", r);
+        ctx.begin_case(idx, || Json::obj().with("kind", Json::s("iovec-handoff")).with("index", Json::U(idx)));
+        let res = catch(|| handoff_case(&mut rng, &pool_data, small));
+        match res {
+            Err(p) => ctx.violate(&["C20", "C05"], &format!("panic:{}", panic_sig(&p)), format!("cross-thread hand-off panicked: {}", p), Json::obj().with("kind", Json::s("iovec-handoff")).with("index", Json::U(idx))),
+            Ok(Err(f)) => ctx.violate(&f.props, &f.sig, f.what, Json::obj().with("kind", Json::s("iovec-handoff")).with("index", Json::U(idx))),
+            Ok(Ok((checks, a_ops))) => {
+                ctx.feature_n("iovec.cross_thread_clone_reads_checked", checks);
+                ctx.feature_n("iovec.cross_thread_owner_ops_meanwhile", a_ops);
+                ctx.ops += checks + a_ops;
+            }
+        }
+        ctx.end_case(idx);
+        if ctx.too_many_violations() {
+            return;
+        }
+    }
+    // Concurrent phase (not under Miri: its scheduler makes this very slow;
+    // the counters are plain atomics).
+    if !miri && ctx.args.only.is_none() {
+        let rounds = ctx.args.get_u64("mt-rounds", if thorough { 40 } else { 6 });
+        concurrent_phase(ctx, (1 << 40) + ctx.args.shard * 10_000, rounds, 4, 250);
     }
 }
